@@ -51,6 +51,33 @@ CHECKS = {
         note='Trusts the textbook oracle refs/models.py (written from docstrings, validated numerically against the unchanged tree each run), z3, engine. '
              'Irrational local operators enter as the IEEE doubles the code uses. Outside: larger L/d.',
         design='6 C06'),
+    'C07': dict(
+        text='Both molecular-Hamiltonian builders (spinless and spin-orbital; optimised and explicit path) run with ALL L^2+L^4 coefficients symbolic; '
+             'the dense MPO matrix and an independent Fock-space operator (explicit fermionic signs) are compared entry by entry by SMT for all coefficient '
+             'values: spinless L=1..6 (7 thorough), spin L<=3 (4 thorough); spin explicit L=5 (6) structurally (construction succeeds, sparsity, nid_map consistency). '
+             'The orbital-rotation gauge matrices are NOT decided.',
+        note='Trusts the Fock-space oracle (validated numerically against the unchanged tree each run), z3, engine. Optimised path: zero pattern from a stated family, '
+             'remaining coefficient combinations assumed non-zero. Outside: gauge transform, spin dense L>=4(5), identically-zero operator.',
+        design='6 C07'),
+    'C12': dict(
+        text='split_matrix_svd / retained_bond_indices / split_mps_tensor run with symbolic charges, entries and tolerance in [0,1); LAPACK SVD replaced by its '
+             'contract; spectrum order across blocks and every truncation outcome (incl. tolerance equal to a cumulative weight) are paths; proved per path by SMT: '
+             'truncation rule on the normalised weights (bound, ordering, maximality, positivity), isometry, sparsity, error identity, exactness at tol=0, zero matrix, non-mutation.',
+        note='Trusts the SVD/sqrt/inverse contracts (validated numerically), z3, engine. Kept/discarded comparisons are stated on the normalised weights with the linking '
+             'identities t_i w^2 = s_i^2 (meta-argument documented in the evidence). Outside: shapes > 3x3 (2x3 quick), rounding.',
+        design='6 C12'),
+    'C13': dict(
+        text='PARTIAL. MPS.compress runs symbolically (QR + SVD contracts, symbolic tolerance): block sparsity, canonical form, non-growing bonds, C12 truncation rule at the '
+             'first truncated bond, and exactness nrm*scale*dense(new)=dense(old) when nothing is discarded / tol=0 are proved by SMT for L<=2 (3 structural). '
+             'The error BOUNDS for tol>0 (scale >= sqrt(1-L tol), error <= nrm sqrt(L tol)) and from_vector(tol>0) are NOT decided.',
+        note='Trusts QR/SVD contracts, z3, engine. Outside: error bounds for tol>0, from_vector(tol>0), scale=1 at tol=0, zero states, L>3.',
+        design='6 C13'),
+    'C14': dict(
+        text='PARTIAL. lanczos_iteration / arnoldi_iteration run in exact arithmetic on symbolic maps and start vectors; every breakdown position is a path. '
+             'Output-size consistency is checked on every termination path for n<=3, numiter<=4 (incl. numiter>n) and through eigh_krylov/expm_krylov; '
+             'for numiter<=2: V^H V=I, V^H A V = T/H, positive off-diagonals, Hessenberg structure are proved by SMT.',
+        note='Trusts sqrt/inverse stubs, z3, engine. Outside: relations beyond two vectors, floating-point loss of orthogonality, meaning of the breakdown threshold.',
+        design='6 C14'),
     'C16': dict(
         text='simplify / merge_edges / rename_node_id / rename_edge_id / add / flip run from arbitrary consistent layered graphs generated inside the exploration '
              '(parallel and multi-operator edges, symbolic coefficients and node charges, colliding and fully symbolic ids for add); operator preservation '
